@@ -596,7 +596,7 @@ def run(ctx):
         run_items(ctx, res, items, parallel=True)
         done = n
     extra = {}
-    if not unlisted_failure(ctx, res):
+    if (thorough or not ctx.deep) and not unlisted_failure(ctx, res):
         sigs = list(F.all_signatures(maxn + 1, NAMES))
         extra = {'parameters': maxn + 1, 'signatures': len(sigs), 'wrappers': ['plain', 'method']}
         run_items(ctx, res, [(w, s, None) for s in sigs for w in ('plain', 'method')],
